@@ -448,24 +448,6 @@ func (r *Runner) finalChecks() {
 	w := r.W
 	w.Mu.Lock()
 	defer w.Mu.Unlock()
-	// C20/R5: Restore is refused while a leadership transfer is in progress.
-	// (Restore has two phases; ErrLeadershipTransferInProgress can also come
-	// from the second one, the no-op, after the snapshot was written. What must
-	// not happen is the write itself while a transfer is under way.)
-	for _, rec := range r.restores {
-		op := rec.op
-		at := w.O.UserSnapshotWrittenAt(rec.state.Hash)
-		if !op.Done || at == 0 || !errors.Is(op.err, raft.ErrLeadershipTransferInProgress) {
-			continue
-		}
-		wms := w.O.UserSnapshotWrittenMs(rec.state.Hash)
-		for _, t := range r.Ops {
-			if t.Kind == "transfer" && t.inst == op.inst && t.Done && t.InvokeMs+2 <= wms && wms <= t.ReturnMs-2 {
-				w.ViolateLocked("C20", "R5", "C20/R5/restore-performed-during-a-leadership-transfer",
-					"restore #%d on %s returned %q, yet the supplied state was written as a snapshot (index %d) at %d ms, while leadership transfer #%d (%d..%d ms) was in progress", op.ID, op.Srv, op.Err, at, wms, t.ID, t.InvokeMs, t.ReturnMs)
-			}
-		}
-	}
 	// C17: every future resolved (the run lasted far longer than the bound)
 	for _, op := range r.Ops {
 		if op.Done || op.inst.DeadLocked() {
